@@ -231,7 +231,40 @@ pub fn gen(rng: &mut Rng, thorough: bool, out: &mut Sink) {
     for k in 0..n {
         let mut def = gen_full_definition(rng, false, k % 3 == 0);
         spice(rng, &mut def);
+        // WordPiece: a vocabulary entry that is exactly the continuation prefix
+        if let Model::WordPiece { vocab, .. } = &mut def.model {
+            let prefix = def.config.templates.iter().find(|t| t.position == InsertionPosition::WordContinuation).map(|t| t.content.clone());
+            if let Some(p) = prefix {
+                if !p.is_empty() && rng.chance(1, 2) && !vocab.iter().any(|t| t.bytes == p.as_bytes()) {
+                    let id = vocab.iter().map(|t| t.id).max().unwrap_or(0).wrapping_add(1);
+                    vocab.push(Token { id, bytes: p.into_bytes() });
+                }
+            }
+        }
         let bytes = def.to_vec();
+        // the export keeps every entry: compared with the definition the tokenizer was built from, as sets
+        // (independent of the order the export chooses)
+        let kept = guarded(|| {
+            let t = Kitoken::from_definition(def.clone()).ok()?;
+            let e = t.to_definition();
+            let key = |d: &Definition| {
+                let mut v: Vec<(u32, Vec<u8>)> = d.model.vocab().iter().map(|t| (t.id, t.bytes.clone())).collect();
+                v.sort();
+                let mut s: Vec<(u32, Vec<u8>, String, Option<String>, u32, bool)> =
+                    d.specials.iter().map(|s| (s.id, s.bytes.clone(), format!("{:?}", s.kind), s.ident.clone(), s.score.to_bits(), s.extract)).collect();
+                s.sort();
+                (v, s, format!("{:?}", d.config))
+            };
+            Some(key(&def) == key(&e))
+        });
+        match kept {
+            Some(Some(ok)) => {
+                out.push(format!("IMPLEQ export-keeps-entries gen{} :: {}", k, if ok { "OK" } else { "DIFF the exported definition does not have the entries, specials and configuration of the definition the tokenizer was built from" }));
+                out.count("export_keeps_entries");
+            }
+            Some(None) => out.count("export_defs_failed_init"),
+            None => out.push(format!("IMPLEQ export-keeps-entries gen{} :: PANIC", k)),
+        }
         out.push(deser_line(&bytes));
         // TODEF only where the export is deterministic: canonical order is what to_definition itself produces
         let canonical = guarded(|| Kitoken::from_definition(def.clone()).ok().map(|t| t.to_definition()));
